@@ -23,6 +23,8 @@ GroupWeights(gr, den) ==
 \* token positions of item b: offset of the item in the flat entry list
 Offset(lens, b) == Sum(SubSeq(lens, 1, b - 1))
 
+\* the aggregation of item b (a batch may mix groupings with mean and with sum aggregation)
+IsMean(r, b) == IF "means" \in DOMAIN r THEN r.means[b] ELSE r.mean
 ItemOk(r, b) ==
     LET gs == r.groups[b]
         off == Offset(r.lengths, b)
@@ -36,8 +38,8 @@ ItemOk(r, b) ==
        /\ \A p \in 1..n :
             LET e == off + p  k == groupOf(p)  w == wts(k)[p - startOf(k)] IN
             /\ r.coo.b[e] = b - 1 /\ r.coo.g[e] = k - 1 /\ r.coo.t[e] = p - 1
-            /\ IF r.mean THEN Abs(r.coo.w[e] * w[2], w[1] * M) <= w[2] ELSE r.coo.w[e] = M
-       /\ r.mean => \A k \in 1..Len(gs) : glens[k] > 0 =>
+            /\ IF IsMean(r, b) THEN Abs(r.coo.w[e] * w[2], w[1] * M) <= w[2] ELSE r.coo.w[e] = M
+       /\ IsMean(r, b) => \A k \in 1..Len(gs) : glens[k] > 0 =>
                        Abs(Sum([p \in 1..glens[k] |-> r.coo.w[off + startOf(k) + p]]), M) <= glens[k]
 
 MaxOf(s) == IF s = <<>> THEN 0 ELSE CHOOSE m \in ToSet(s) : \A x \in ToSet(s) : x <= m
